@@ -190,18 +190,38 @@ def gen_glob(rng, ev_cs, span_cs):
     return {"t": "fn", "cs": keep}
 
 
+def gen_agree_filter(rng, t0, ev_cs, span_cs):
+    """a static per-layer filter that accepts everything at target t0 (so t0 callsites cache `always`) and
+    differs from its siblings elsewhere"""
+    others = [t for t in range(NT) if t != t0]
+    tbl = [[t0, 5]] + [[t, rng.choice([1, 2, 3, 4, 5])] for t in others if rng.random() < 0.5]
+    rng.shuffle(tbl)
+    f = {"t": "targets", "tbl": tbl, "d": None}
+    r = rng.random()
+    if r < 0.2:
+        f = {"t": "or", "a": f, "b": gen_filter(rng, 1, ev_cs, span_cs, allow_dyn=False)}
+    elif r < 0.3:
+        f = {"t": "or", "a": {"t": "level", "l": rng.choice([1, 2, 3])}, "b": f}
+    elif r < 0.38:
+        f = {"t": "not", "a": {"t": "not", "a": f}}
+    elif r < 0.45:
+        f = {"t": "and", "a": f, "b": {"t": "all"}}
+    return f
+
+
 class Gen:
-    def __init__(self, rng, in_class=True, vetoes=False):
+    def __init__(self, rng, in_class=True, vetoes=False, agree=None):
         self.rng = rng
         self.names = 0
         self.nf = 0
         self.in_class = in_class
         self.vetoes = vetoes
+        self.agree = agree          # target id every per-layer filter accepts entirely, or None
 
     def layer(self, depth, ev_cs, span_cs, under_filt=False, under_vec=False):
         rng = self.rng
         r = rng.random()
-        glob_ok = (not under_filt and not under_vec) or not self.in_class
+        glob_ok = (not under_filt) or not self.in_class
         if depth <= 0 or r < 0.30:
             self.names += 1
             veto = []
@@ -209,10 +229,14 @@ class Gen:
                 veto = sorted(rng.sample(ev_cs, rng.randint(1, max(1, len(ev_cs) // 2))))
             return {"t": "rec", "n": self.names, "veto": veto}
         if r < 0.40 and glob_ok:
+            if self.agree is not None:
+                g = rng.choice([{"t": "level", "l": 5}, {"t": "targets", "tbl": [[self.agree, 5]], "d": rng.choice([3, 4, 5])},
+                                {"t": "fn", "cs": sorted(set(range(45)) - set(rng.sample(range(45), 3)) | set(c for c in range(45) if c % 3 == self.agree))}])
+                return {"t": "glob", "f": g}
             return {"t": "glob", "f": gen_glob(rng, ev_cs, span_cs)}
-        if r < 0.68 and self.nf < 10:
+        if r < (0.68 if self.agree is None else 0.74) and self.nf < 10:
             self.nf += 1
-            f = gen_filter(rng, 2, ev_cs, span_cs)
+            f = gen_filter(rng, 2, ev_cs, span_cs) if self.agree is None else gen_agree_filter(rng, self.agree, ev_cs, span_cs)
             return {"t": "filt", "k": 0, "l": self.layer(depth - 1, ev_cs, span_cs, True, under_vec), "f": f}
         if r < 0.82:
             return {"t": "pair", "o": self.layer(depth - 1, ev_cs, span_cs, under_filt, under_vec),
@@ -220,8 +244,8 @@ class Gen:
         if r < 0.88:
             return {"t": "opt", "l": None if rng.random() < 0.4 else self.layer(depth - 1, ev_cs, span_cs, under_filt, under_vec)}
         if r < 0.96:
-            # an empty Vec disables the whole stack (F14, property C09): only outside the class
-            return {"t": "vec", "ls": [self.layer(depth - 1, ev_cs, span_cs, under_filt, True) for _ in range(rng.randint(1 if self.in_class else 0, 3))]}
+            # (an empty Vec is `no layer at all` since the F14 repair; a global filter inside a Vec is global since the F8 repair)
+            return {"t": "vec", "ls": [self.layer(depth - 1, ev_cs, span_cs, under_filt, True) for _ in range(rng.choice([0, 1, 2, 2, 3]))]}
         return {"t": "box", "l": self.layer(depth - 1, ev_cs, span_cs, under_filt, under_vec)}
 
 
@@ -263,12 +287,22 @@ def gen_ops(rng, n, ev_cs, span_cs, probe_cs, malformed):
 
 
 def gen_case(rng, idx, kind):
-    """kind: 'clean' (no probes, no vetoes), 'unclean' (probes and vetoing plain layers), 'flat' (the F3 shape:
-    a few filtered recorders side by side), 'outside' (global filters inside Filtered / Vec: correspondence only)"""
+    """kind: 'clean' (no probes, no vetoes), 'agree' (clean; static per-layer filters that all accept one target and differ
+    elsewhere: cached-`always` callsites hit repeatedly next to emissions the layers disagree on), 'unclean' (probes and
+    vetoing plain layers), 'flat' (the F3 shape: a few filtered recorders side by side), 'outside' (global filters or
+    vetoing recorders inside a Filtered: correspondence only)"""
     ev_cs = sorted(rng.sample(range(0, 15), rng.randint(2, 5)))
     span_cs = sorted(c + 15 for c in rng.sample(range(0, 15), rng.randint(1, 3)))
+    agree = None
+    if kind == "agree":
+        # every per-layer filter accepts target t0 entirely: t0 callsites cache `always` and are hit repeatedly, while the
+        # filters differ on the other targets; the callsite pools contain both
+        agree = rng.randrange(NT)
+        t_other = rng.choice([t for t in range(NT) if t != agree])
+        ev_cs = sorted(set(ev_cs[:3] + [3 * rng.randrange(5) + agree, 3 * rng.randrange(5) + t_other]))
+        span_cs = sorted(set(span_cs[:2] + [15 + 3 * rng.randrange(5) + agree]))
     probe_cs = sorted(c + 30 for c in rng.sample(range(0, 15), rng.randint(1, 3))) if kind in ("unclean", "flat", "outside") and rng.random() < 0.85 else []
-    g = Gen(rng, in_class=(kind != "outside"), vetoes=(kind in ("unclean", "outside") or (kind == "flat" and rng.random() < 0.5)))
+    g = Gen(rng, in_class=(kind != "outside"), vetoes=(kind in ("unclean", "outside") or (kind == "flat" and rng.random() < 0.5)), agree=agree)
     if kind == "flat":
         stack = []
         for _ in range(rng.randint(2, 4)):
@@ -284,12 +318,47 @@ def gen_case(rng, idx, kind):
                 stack.append({"t": "filt", "k": 0, "l": {"t": "rec", "n": g.names, "veto": []}, "f": f})
             else:
                 stack.append({"t": "rec", "n": g.names, "veto": veto})
+    elif kind == "agree":
+        stack = [g.layer(rng.randint(1, 3), ev_cs, span_cs) for _ in range(rng.randint(2, 5))]
+        if g.nf < 2:        # make sure at least two per-layer-filtered recorders sit side by side
+            for _ in range(2):
+                g.names += 1
+                stack[rng.randrange(len(stack))] = {"t": "filt", "k": 0, "l": {"t": "rec", "n": g.names, "veto": []},
+                                                    "f": gen_agree_filter(rng, agree, ev_cs, span_cs)}
     else:
-        stack = [g.layer(rng.randint(0, 3), ev_cs, span_cs) for _ in range(rng.randint(1, 4))]
+        stack = [g.layer(rng.randint(0, 3), ev_cs, span_cs) for _ in range(rng.randint(1, 5))]
     assign_tags(stack)
-    n = rng.choice([6, 10, 16, 24, 40])
+    n = rng.choice([6, 10, 16, 24, 40]) if kind != "agree" else rng.choice([12, 20, 30, 40])
     ops = gen_ops(rng, n, ev_cs, span_cs, probe_cs, malformed=(rng.random() < 0.25))
     return {"id": idx, "kind": kind, "stack": stack, "ops": ops}
+
+
+def gen_two(rng, idx):
+    """two stacks on two threads: each thread runs its own history on its own stack, the main thread interleaves them; the
+    callsite pool (and so the per-callsite interest cache) is shared"""
+    a = gen_case(rng, idx, rng.choice(["clean", "agree", "agree", "flat", "unclean"]))
+    b = gen_case(rng, idx, rng.choice(["clean", "agree", "agree", "clean", "unclean"]))
+    ops, ia, ib = [], 0, 0
+    while ia < len(a["ops"]) or ib < len(b["ops"]):
+        if ib >= len(b["ops"]) or (ia < len(a["ops"]) and rng.random() < 0.5):
+            ops.append(a["ops"][ia] + [0])
+            ia += 1
+        else:
+            ops.append(b["ops"][ib] + [1])
+            ib += 1
+    return {"id": idx, "kind": "two", "stack": a["stack"], "stack2": b["stack"], "ops": ops}
+
+
+def project(case, impl, t):
+    """the single-thread view of thread t of a two-stack case: its stack, its operations, what its own stack logged"""
+    idxs = [i for i, op in enumerate(case["ops"]) if op[2] == t]
+    sub = {"id": case["id"], "kind": case["kind"], "stack": case["stack"] if t == 0 else case["stack2"],
+           "ops": [case["ops"][i][:2] for i in idxs]}
+    ops_impl = [impl["ops"][i] for i in idxs if i < len(impl["ops"])]
+    pan = None
+    if impl["panic"] and impl["panic"]["op"] in idxs:
+        pan = dict(impl["panic"], op=idxs.index(impl["panic"]["op"]))
+    return sub, {"hint": impl["hint"], "ops": ops_impl, "panic": pan, "build_panic": impl["build_panic"]}, idxs
 
 
 # ------------------------------------------------------------------------------------------------
@@ -297,8 +366,8 @@ def gen_case(rng, idx, kind):
 
 def walk_stack(stack):
     """-> (recs, globs, filts, in_class).  recs: [{'n', 'veto', 'chain': [k,..] outer..inner}]; filts: {k: {'f', 'parent': k|None}};
-    globs: [filter]; in_class False when a global filter or a vetoing recorder sits inside a Filtered, or a
-    global filter inside a Vec (outside the class the property is claimed for, see notes/C07.md)."""
+    globs: [filter]; in_class False when a global filter or a vetoing recorder sits inside a Filtered
+    (outside the class the property is claimed for, see notes/C07.md: Spec.shape)."""
     recs, globs, filts = [], [], {}
     ok = [True]
 
@@ -310,7 +379,7 @@ def walk_stack(stack):
                 ok[0] = False
         elif t == "glob":
             globs.append(l["f"])
-            if chain or under_vec:
+            if chain:
                 ok[0] = False
         elif t == "filt":
             filts[l["k"]] = {"f": l["f"], "parent": chain[-1] if chain else None}
@@ -322,8 +391,6 @@ def walk_stack(stack):
             if l["l"] is not None:
                 go(l["l"], chain, under_vec)
         elif t == "vec":
-            if not l["ls"]:
-                ok[0] = False           # F14 (C09): an empty Vec switches the whole stack off
             for x in l["ls"]:
                 go(x, chain, True)
         elif t == "box":
@@ -360,8 +427,9 @@ class Oracle:
         self.handles = []                         # handle -> span id | None
         self.stack = []                           # bottom..top: [id, dup]
         self.spans = {}                           # id -> {'cs', 'parent', 'acc': {k: bool}}  (alive spans)
-        self.taint = {}                           # k -> True: an unconsumed enabled pass left k's answer `false` behind
+        self.taint = {}                           # k -> finding id: an unconsumed enabled pass left k's answer `false` behind
         self.clean = True
+        self.full = False                         # F71: the Registry vetoed because all 64 bits were set
         self.violations = []                      # (what, detail, finding)
         self.stats = {"deliveries": 0, "expect_true": 0, "expect_false": 0, "f3": 0, "always_twice": 0, "disagree": 0, "lookups": 0}
         self.always_hits = {}
@@ -455,6 +523,8 @@ class Oracle:
         for i, (code, arg) in enumerate(case["ops"]):
             if i >= len(self.impl["ops"]):
                 break
+            if self.impl["panic"] and self.impl["panic"]["op"] == i:
+                break                               # the operation was cut short by a panic, which is reported on its own
             obs = self.impl["ops"][i]
             deliveries = [o for o in obs if "d" in o]
             self.stats["deliveries"] += len(deliveries)
@@ -466,10 +536,20 @@ class Oracle:
                 self.lifecycle(i, code, arg, obs, deliveries)
         return self
 
+    def registry_veto(self, r, evals):
+        """F71's exact shape: the stack has exactly 64 per-layer filters, every one of them answered `false` in this pass,
+        and the pass answered `false` although it got past every global filter (all 64 were asked)"""
+        return (not r) and len(self.filts) == 64 and len(evals) == 64 and not any(rk for _, rk in evals)
+
     def after_passes(self, obs, consumed):
         passes, _ = self.passes(obs)
         for n, (r, evals) in enumerate(passes):
             last = n == len(passes) - 1
+            if self.registry_veto(r, evals):
+                self.full = True                    # nobody clears the all-ones bitmap
+                self.clean = False
+                self.taint = {k: "F71" for k in self.filts}
+                continue
             if not r:
                 self.taint = {}                     # a global `false` clears the bitmap
                 continue
@@ -482,7 +562,7 @@ class Oracle:
                     if r_k:
                         self.taint.pop(k, None)
                     else:
-                        self.taint[k] = True
+                        self.taint[k] = "F3"
 
     def emission(self, i, code, cs, obs, deliveries):
         m = meta_of(cs)
@@ -534,11 +614,18 @@ class Oracle:
                 if dispatched and not had_pass and tainted and reach:
                     self.stats["f3"] += 1
                     self.bad("miss", "op %d: layer %d (filters %s) missed callsite %d although every global filter and all its own filters accept it; "
-                             "filter #%d kept a stale `false` from an enabled pass that had no event" % (i, rec["n"], rec["chain"], cs, tainted[0]), "F3")
+                             "filter #%d kept a stale `false` from an enabled pass that had no event" % (i, rec["n"], rec["chain"], cs, tainted[0]),
+                             self.taint[tainted[0]])
                     if sid is not None:
                         for k in rec["chain"]:
                             if self.taint.get(k):
                                 self.spans[sid]["acc"][k] = False      # the layer never saw the span: follow-ups follow that fate
+                elif (passes and self.registry_veto(*passes[-1]) and not dispatched) or \
+                        (not dispatched and not had_pass and self.full and len(self.taint) == 64 and set(self.taint.values()) == {"F71"}):
+                    # ... or a later emission that the Registry's event_enabled vetoes because that all-ones bitmap is still there
+                    self.stats["f71"] = self.stats.get("f71", 0) + 1
+                    self.bad("miss", "op %d: layer %d (filters %s) missed callsite %d: all 64 per-layer filters rejected it and the Registry vetoed the "
+                             "emission for every layer" % (i, rec["n"], rec["chain"], cs), "F71")
                 elif m["level"] > self.hint and not obs and self.pair_over_registry:
                     # F81's exact shape: the macro guard dropped the emission (no call reached the collector) because the stack's
                     # max-level hint is below its level, and the layer added directly to the Registry contains an `and_then` pair
@@ -641,6 +728,7 @@ def parse_impl(out):
             res["panic"] = o
         elif "op" in o:
             res["ops"].append(o["obs"])
+            res.setdefault("other", []).append(o.get("other", []))
     return res
 
 
@@ -679,7 +767,10 @@ def model_obs_to_json(o):
 
 def run_impl(path, cases, workers):
     def one(case):
-        rc, out = run_bin(path, input=json.dumps({"stack": case["stack"], "ops": case["ops"]}), timeout=120)
+        payload = {"stack": case["stack"], "ops": case["ops"]}
+        if "stack2" in case:
+            payload["stack2"] = case["stack2"]
+        rc, out = run_bin(path, input=json.dumps(payload), timeout=120)
         return rc, out
     with ThreadPoolExecutor(max_workers=workers) as ex:
         return list(ex.map(one, cases))
@@ -695,11 +786,13 @@ def corpus_cases():
                 c.setdefault("kind", "corpus")
                 c["id"] = "corpus/" + f
                 assign_tags(c["stack"])
+                if "stack2" in c:
+                    assign_tags(c["stack2"])
                 out.append(c)
     return out
 
 
-REQUIRES = ("From Coq Require Import NArith List Bool.\nFrom TV Require Import Stack.Model Stack.Harness.\n"
+REQUIRES = ("From Coq Require Import NArith List Bool.\nFrom TV Require Import Stack.Model Stack.Model2 Stack.Harness.\n"
             "Import ListNotations.\nLocal Open Scope N_scope.")
 
 
@@ -726,17 +819,21 @@ def run(ctx):
     rep.proof = coq_prove(ctx, "C07", ["theories/Properties/C07.vo", "theories/Stack/Harness.vo"])
     # ---- cases
     rng = ctx.rng
-    n = 260 if not ctx.thorough() else 2400
+    n = 660 if not ctx.thorough() else 4400
     cases = corpus_cases()
-    kinds = ["clean"] * 9 + ["unclean"] * 5 + ["flat"] * 4 + ["outside"] * 2
+    kinds = ["clean"] * 6 + ["agree"] * 7 + ["unclean"] * 4 + ["flat"] * 3 + ["outside"] * 2
     for i in range(n):
         cases.append(gen_case(rng, i, kinds[i % len(kinds)]))
+    for i in range(n // 6):
+        cases.append(gen_two(rng, n + i))
     for c in cases:
         rep.count("kind:" + c["kind"])
         rep.count("depth:%d" % len(c["stack"]))
+        if "stack2" in c:
+            rep.count("depth:%d" % len(c["stack2"]))
         rep.count("ops:%d" % (10 * (len(c["ops"]) // 10)))
-        for code, _ in c["ops"]:
-            rep.count("op:" + code)
+        for op in c["ops"]:
+            rep.count("op:" + op[0])
     builds = [False] + ([True] if ctx.thorough() else [])
     model = None
     for rel in builds:
@@ -762,7 +859,11 @@ def run(ctx):
                     items = []
                     for case, impl in zip(cases[j:j + chunk], impls[j:j + chunk]):
                         mx = impl["hint"] if impl["hint"] is not None else 5
-                        items.append("run_case %s %d %s" % (coq_coll(case["stack"]), mx, coq_ops(case["ops"])))
+                        if "stack2" in case:
+                            h2 = "[" + "; ".join("(%s, %s %d)" % ("TA" if t == 0 else "TB", OPC[c], a) for c, a, t in case["ops"]) + "]"
+                            items.append("run2_case %s %s %d %s" % (coq_coll(case["stack"]), coq_coll(case["stack2"]), mx, h2))
+                        else:
+                            items.append("(let '(o, b, n) := run_case %s %d %s in (o, b, (n, 0)))" % (coq_coll(case["stack"]), mx, coq_ops(case["ops"])))
                     terms.append(("m%d" % j, "[" + ";\n ".join(items) + "]"))
                 res = coq_eval(ctx, REQUIRES, terms, tag="c07cases")
                 model = []
@@ -778,42 +879,63 @@ def run(ctx):
             if impl["build_panic"]:
                 rep.violation("building the stack panicked: %s [%s]" % (impl["build_panic"], prof), {"case": case, "profile": prof})
                 continue
-            orc = Oracle(case, impl).run()
+            two = "stack2" in case
+            if two:
+                # each thread is judged on its own: its stack, its operations, what its own stack logged
+                views = [project(case, impl, t) for t in (0, 1)]
+                orcs = [Oracle(sub, im).run() for sub, im, _ in views]
+                for oi, other in enumerate(impl.get("other", [])):
+                    stray = [o for o in other if o.get("call") != "reg"]
+                    if stray:
+                        rep.violation("two stacks: an operation of thread %d reached the other thread's stack: %s [%s build]"
+                                      % (case["ops"][oi][2], stray[:3], prof), {"case": case, "profile": prof, "op": oi})
+            else:
+                orcs = [Oracle(case, impl).run()]
+            clean_impl = all(o.clean for o in orcs)
             if model is not None:
                 outs, bares, bits = model[ci]
-                mops = [[model_obs_to_json(o) for o in op] for op in outs]
-                nimpl = len(impl["ops"])
+                strip = (lambda obs: [o for o in obs if o.get("call") != "reg"]) if two else (lambda obs: obs)
+                mops = [strip([model_obs_to_json(o) for o in op]) for op in outs]
+                iops = [strip(op) for op in impl["ops"]]
+                nimpl = len(iops)
                 for oi in range(min(nimpl, len(mops))):
-                    if impl["ops"][oi] != mops[oi] and not (impl["panic"] and oi == nimpl - 1):
-                        disagree.append({"case": case, "op": oi, "impl": impl["ops"][oi], "model": mops[oi], "profile": prof})
+                    if iops[oi] != mops[oi] and not (impl["panic"] and oi == nimpl - 1):
+                        disagree.append({"case": case, "op": oi, "impl": iops[oi], "model": mops[oi], "profile": prof})
                         break
                 if nimpl != len(mops) and not impl["panic"]:
                     disagree.append({"case": case, "op": "count", "impl": nimpl, "model": len(mops)})
                 model_clean = not any(bares)
-                if not impl["panic"] and model_clean != orc.clean:
-                    disagree.append({"case": case, "op": "clean", "impl": orc.clean, "model": model_clean})
-                if model_clean and bits != 0:
+                if not impl["panic"] and model_clean != clean_impl:
+                    disagree.append({"case": case, "op": "clean", "impl": clean_impl, "model": model_clean})
+                if model_clean and tuple(bits) != (0, 0) and all(o.in_class and len(o.filts) <= 63 for o in orcs):
+                    # C07_bitmap_clean, observed on the model's own run (stacks outside WF are exempt: F71's 64 filters)
                     disagree.append({"case": case, "op": "bits", "model": bits})
                 rep.traces_validated += 1
-            rep.count("clean" if orc.clean else "unclean-history")
+            rep.count("clean" if clean_impl else "unclean-history")
             if impl["panic"]:
                 # debug_asserts in FilterState: only ever legitimate after an unconsumed enabled pass (F3's precondition)
                 rep.count("panic")
+                porc = orcs[case["ops"][impl["panic"]["op"]][2]] if two else orcs[0]
                 rep.violation("panic at op %d: %s [%s]" % (impl["panic"]["op"], impl["panic"]["panic"][:200], prof),
                               {"case": case, "profile": prof, "panic": impl["panic"]},
-                              finding="F3" if not orc.clean else None)
-            if orc.in_class:
-                for k, v in orc.stats.items():
-                    rep.count("oracle:" + k, v)
-                if orc.stats["disagree"] and any(v >= 2 for v in orc.always_hits.values()):
-                    rep.nontrivial.add(json.dumps([case["stack"], case["ops"]], sort_keys=True))
-                for what, detail, finding in orc.violations:
-                    rep.violation("%s: %s [%s build]" % (what, detail, prof), {"case": {"stack": case["stack"], "ops": case["ops"]}, "kind": case["kind"],
-                                                                            "profile": prof, "detail": detail}, finding=finding)
-            else:
-                rep.count("outside-class(correspondence only)")
+                              finding=("F71" if porc.full else "F3") if not porc.clean else None)
+            for t, orc in enumerate(orcs):
+                if orc.in_class:
+                    for k, v in orc.stats.items():
+                        rep.count("oracle:" + k, v)
+                    if orc.stats["disagree"] and any(v >= 2 for v in orc.always_hits.values()):
+                        rep.nontrivial.add(json.dumps([case["stack"], case.get("stack2"), case["ops"]], sort_keys=True))
+                    for what, detail, finding in orc.violations:
+                        if two:
+                            detail = "thread %d (its operation numbers): %s" % (t, detail)
+                        rep.violation("%s: %s [%s build]" % (what, detail, prof),
+                                      {"case": {k: case[k] for k in ("stack", "stack2", "ops") if k in case}, "kind": case["kind"],
+                                       "profile": prof, "detail": detail}, finding=finding)
+                else:
+                    rep.count("outside-class(correspondence only)")
         if model is not None:
             rep.tie("correspondence:" + prof, not disagree, "%d disagreements in %d cases" % (len(disagree), len(cases)), disagree[:1] or None)
     rep.exhaustive = False
-    rep.samples = [{"stack": c["stack"], "ops": c["ops"][:8]} for c in cases[:3]]
+    rep.samples = [{"stack": c["stack"], "ops": c["ops"][:8]} for c in cases[:3]] + \
+                  [{"stack": c["stack"], "stack2": c["stack2"], "ops": c["ops"][:8]} for c in cases if "stack2" in c][:1]
     return rep
